@@ -10,6 +10,7 @@ Tie (model = lean/Eliot/Model/LogCall.lean through Driver/C18.lean), per call:
   inspect.getcallargs   <-> `getcallargs`
   logging_wrapper (raw) <-> `wrapper`                      (result + both messages, field by field)
   decorated call        <-> `decorated` (boltons outer function + wrapper), incl. the locals of the body
+  stacked decoration    <-> `decoratedTwice` (log_call(**outer)(log_call(**inner)(f)): four messages, the inner action inside the outer)
   decoration            <-> `decorate` (ValueError for include_args naming no parameter)
   `posOnlyRespected` => the model's `bindingAgrees` flag (evaluated sufficient condition for the
   hypothesis of the partial theorems).
@@ -49,6 +50,8 @@ THEOREMS = [
     "LC.end_has_result_iff",
     "LC.default_action_type",
     "LC.bind_keys",
+    "LC.stacked_shape",
+    "LC.stacked_both_log_bound_args",
 ]
 RULE = ("calls = generated signature (0-6 parameters over the five kinds, defaults, <= 1 name from the special pool "
         "{logger, action_type, _serializers, task_level, timestamp, task_uuid, action_status} plus harmless odd names) x form "
@@ -265,18 +268,24 @@ def sig_source(params):
     return ", ".join(parts)
 
 
+def deco_line(o):
+    a = []
+    if o["action_type"] is not None:
+        a.append("action_type=%r" % o["action_type"])
+    if o["include_args"] is not None:
+        a.append("include_args=%r" % (o["include_args"],))
+    if not o["include_result"]:
+        a.append("include_result=False")
+    return "@log_call(%s)" % ", ".join(a) if a else "@log_call"
+
+
+def layers(case):
+    """decorator options, outermost first"""
+    return ([case["outer_opts"]] if case.get("outer_opts") else []) + [case["opts"]]
+
+
 def source(case, decorated):
-    o = case["opts"]
-    deco = []
-    if decorated:
-        a = []
-        if o["action_type"] is not None:
-            a.append("action_type=%r" % o["action_type"])
-        if o["include_args"] is not None:
-            a.append("include_args=%r" % (o["include_args"],))
-        if not o["include_result"]:
-            a.append("include_result=False")
-        deco = ["@log_call(%s)" % ", ".join(a) if a else "@log_call"]
+    deco = [deco_line(o) for o in layers(case)] if decorated else []
     fn = deco + [
         "def f(%s):" % sig_source(case["sig"]),
         "    'doc of f'",
@@ -368,6 +377,23 @@ def observe(case, msgs):
         except Exception as e:  # noqa
             meta["signature"] = ["<%s>" % type(e).__name__, None]
             meta["signature_eq"] = False
+        try:
+            meta["argspec"] = [repr(inspect.getfullargspec(fd)), repr(inspect.getfullargspec(fu))]
+        except Exception as e:  # noqa
+            meta["argspec"] = ["<%s>" % type(e).__name__, None]
+        for attr in ("__defaults__", "__kwdefaults__"):
+            meta[attr] = [repr(getattr(fd, attr, None) or None), repr(getattr(fu, attr, None) or None)]
+
+        def gca(f, impl):
+            try:
+                d = inspect.getcallargs(f, *(([] if impl is None else [impl]) + list(case["pos"])), **dict((k, v) for k, v in case["kw"]))
+                return repr(sorted((k, _Helper.freeze(v)) for k, v in d.items()))
+            except TypeError:
+                return "TypeError"
+            except Exception as e:  # noqa
+                return "<%s>" % type(e).__name__
+
+        meta["getcallargs"] = [gca(fd, impl_d), gca(fu, impl_u)]
         obs["meta"] = meta
     try:
         b = inspect.signature(under_u).bind(*(implicit + list(case["pos"])), **dict((k, v) for k, v in case["kw"]))
@@ -397,7 +423,7 @@ def check_case(case, obs):
     if "dec" not in obs:
         # decoration itself failed: legitimate only for include_args naming something that is no parameter
         names = [p["name"] for p in case["sig"]]
-        inc = case["opts"]["include_args"] or []
+        inc = [k for o in layers(case) for k in (o["include_args"] or [])]
         if all(k in names for k in inc):
             fails.append(("decoration", "log_call(...) raised %s at decoration time for valid options" % obs["decorate"], {}))
         elif obs["decorate"] != "ValueError":
@@ -422,42 +448,48 @@ def check_case(case, obs):
     exp = obs["expected_bound"]
     if exp is None:
         return fails  # the call does not bind: nothing is promised about the log
-    # one action: start + end
+    # one action per log_call layer: starts outermost first, ends innermost first
     m = d["msgs"]
-    ok_shape = (len(m) == 2 and m[0].get("action_status") == "started"
-                and m[1].get("action_status") == ("succeeded" if "ret" in u else "failed")
-                and m[0].get("task_uuid") == m[1].get("task_uuid")
-                and m[0].get("task_level") == [1] and m[1].get("task_level") == [2])
+    L = layers(case)
+    n = len(L)
+    final = "succeeded" if "ret" in u else "failed"
+    ok_shape = (len(m) == 2 * n and all(x.get("action_status") == "started" for x in m[:n])
+                and all(x.get("action_status") == final for x in m[n:])
+                and len({x.get("task_uuid") for x in m}) == 1
+                and all(m[i].get("task_level") == [2] * i + [1] for i in range(n))
+                and all(m[2 * n - 1 - i].get("task_level") == [2] * i + [3 if i < n - 1 else 2] for i in range(n)))
     if not ok_shape:
-        fails.append(("one-action", "decorated call did not log exactly one start and one matching end message: %r" % (
+        fails.append(("one-action", "decorated call did not log exactly one start and one matching end message per log_call layer: %r" % (
             [(x.get("action_status"), x.get("task_level")) for x in m],), {}))
         return fails
-    start, end = m
-    # O3 start fields = bound arguments without self, restricted to include_args
-    want = {k: v for k, v in exp.items() if k != "self"}
-    inc = case["opts"]["include_args"]
-    if inc is not None:
-        want = {k: v for k, v in want.items() if k in inc}
-    for k, v in want.items():
-        if k not in start:
-            fails.append(("start-fields", "bound argument %s=%r missing from the start message" % (k, v), {"field": k, "effect": "start-field-missing"}))
-        elif not (start[k] is v or same_value(start[k], v)):
-            fails.append(("start-fields", "start message has %s=%r, the call bound %r" % (k, start[k], v), {"field": k, "effect": "start-field-overwritten"}))
-    for k in start:
-        if k not in want and k not in STRUCT_KEYS:
-            fails.append(("start-fields", "start message has a field %s that is not a logged argument" % k, {"field": k, "effect": "start-field-extra"}))
-    # O4 result
-    if "ret" in u:
-        if case["opts"]["include_result"]:
-            if "result" not in end or not (end["result"] is d["ret"] or same_value(end["result"], d["ret"])):
-                fails.append(("end-result", "successful end message lacks result == return value", {}))
-        elif "result" in end:
-            fails.append(("end-result", "include_result=False but the end message has a result", {}))
-    # O5 action type
     qual = "f" if case["form"] == "function" else "K.f"
-    want_type = case["opts"]["action_type"] if case["opts"]["action_type"] is not None else "%s.%s" % (MODNAME, qual)
-    if "action_type" not in want and (start.get("action_type") != want_type or end.get("action_type") != want_type):
-        fails.append(("action-type", "action_type is %r, expected %r" % (start.get("action_type"), want_type), {}))
+    for i, opts in enumerate(L):
+        start, end = m[i], m[2 * n - 1 - i]
+        where = "" if n == 1 else (" of the outer log_call" if i == 0 else " of the inner log_call")
+        # O3 start fields = bound arguments without self, restricted to include_args
+        want = {k: v for k, v in exp.items() if k != "self"}
+        inc = opts["include_args"]
+        if inc is not None:
+            want = {k: v for k, v in want.items() if k in inc}
+        for k, v in want.items():
+            if k not in start:
+                fails.append(("start-fields", "bound argument %s=%r missing from the start message%s" % (k, v, where), {"field": k, "effect": "start-field-missing"}))
+            elif not (start[k] is v or same_value(start[k], v)):
+                fails.append(("start-fields", "start message%s has %s=%r, the call bound %r" % (where, k, start[k], v), {"field": k, "effect": "start-field-overwritten"}))
+        for k in start:
+            if k not in want and k not in STRUCT_KEYS:
+                fails.append(("start-fields", "start message%s has a field %s that is not a logged argument" % (where, k), {"field": k, "effect": "start-field-extra"}))
+        # O4 result
+        if "ret" in u:
+            if opts["include_result"]:
+                if "result" not in end or not (end["result"] is d["ret"] or same_value(end["result"], d["ret"])):
+                    fails.append(("end-result", "successful end message%s lacks result == return value" % where, {}))
+            elif "result" in end:
+                fails.append(("end-result", "include_result=False but the end message%s has a result" % where, {}))
+        # O5 action type (the default is only checked on the innermost layer: it names the function itself)
+        want_type = opts["action_type"] if opts["action_type"] is not None else ("%s.%s" % (MODNAME, qual) if i == n - 1 else None)
+        if want_type is not None and "action_type" not in want and (start.get("action_type") != want_type or end.get("action_type") != want_type):
+            fails.append(("action-type", "action_type%s is %r, expected %r" % (where, start.get("action_type"), want_type), {}))
     # O6 metadata
     meta = obs["meta"]
     for attr in ("__name__", "__doc__"):
@@ -465,6 +497,10 @@ def check_case(case, obs):
             fails.append(("metadata", "%s not preserved: %r vs %r" % (attr, meta[attr][0], meta[attr][1]), {}))
     if not meta["signature_eq"]:
         fails.append(("metadata", "inspect.signature not preserved: %s vs %s" % tuple(meta["signature"]), {}))
+    for what in ("argspec", "__defaults__", "__kwdefaults__", "getcallargs"):
+        if meta[what][0] != meta[what][1]:
+            fails.append(("metadata", "the decorated function does not keep the signature: %s is %s, the function's is %s" % (
+                {"argspec": "inspect.getfullargspec", "getcallargs": "inspect.getcallargs(f, *args, **kw)"}.get(what, what), meta[what][0], meta[what][1]), {}))
     return fails
 
 
@@ -479,17 +515,19 @@ def variants(case):
             if p["name"] == old:
                 p["name"] = new
         c["kw"] = [[new if k == old else k, v] for k, v in c["kw"]]
-        if c["opts"]["include_args"] is not None:
-            c["opts"]["include_args"] = [new if k == old else k for k in c["opts"]["include_args"]]
+        for o in layers(c):
+            if o["include_args"] is not None:
+                o["include_args"] = [new if k == old else k for k in o["include_args"]]
         return c
 
     for h in HOT:
         if h in names:
             out.append(({"param_name": h}, rename(case, h, "qq")))
-    inc = case["opts"]["include_args"]
-    if inc is not None and "self" in inc:
+    if any(o["include_args"] is not None and "self" in o["include_args"] for o in layers(case)):
         c = json.loads(json.dumps(case))
-        c["opts"]["include_args"] = [k for k in inc if k != "self"]
+        for o in layers(c):
+            if o["include_args"] is not None:
+                o["include_args"] = [k for k in o["include_args"] if k != "self"]
         out.append(({"include_args": "self"}, c))
     po = [p["name"] for p in case["sig"] if p["kind"] == "posOnly"]
     if any(k in po for k, _ in case["kw"]):
@@ -547,6 +585,7 @@ def enc(v):
 
 
 def enc_msg(m, position):
+    position = 1 if m.get("action_status") in ("succeeded", "failed") else 0   # 1 = an end message (Eliot always writes action_status itself)
     out = {}
     for k, v in m.items():
         if k == "result" and position == 1:
@@ -582,8 +621,12 @@ def enc_run(o):
 
 def model_case(case):
     implicit = {"method": ["<self>"], "classmethod": ["<cls>"]}.get(case["form"], [])
-    return dict(sig=case["sig"], pos=implicit + list(case["pos"]), kw=case["kw"], opts=case["opts"],
-                meta=dict(module=MODNAME, qualname="f" if case["form"] == "function" else "K.f"), body=case["body"])
+    d = dict(sig=case["sig"], pos=implicit + list(case["pos"]), kw=case["kw"], opts=case["opts"],
+             meta=dict(module=MODNAME, qualname="f" if case["form"] == "function" else "K.f"), body=case["body"])
+    if case.get("outer_opts"):
+        # boltons' generated function keeps __module__ and __name__ but not __qualname__
+        d["outer_opts"], d["outer_meta"] = case["outer_opts"], dict(module=MODNAME, qualname="f")
+    return d
 
 
 def strip_model_run(r):
@@ -607,7 +650,11 @@ def diff(ctx, case, obs, mo):
         return False
     if not mo["wf"]:
         bad.append(("wf", "python accepted the def", "model says ill-formed"))
-    cmp("decorate", obs["decorate"], mo["decorate"])
+    st = mo.get("stacked")
+    if st is None:
+        cmp("decorate", obs["decorate"], mo["decorate"])
+    else:
+        cmp("decorate", obs["decorate"], mo["decorate"] if mo["decorate"] != "ok" else st["decorate"])
     u = obs["und"]
     cmp("direct", enc_outcome(u), mo["direct"])
     if "ok" in mo["bind"]:
@@ -621,16 +668,17 @@ def diff(ctx, case, obs, mo):
         d = obs["dec"]
         real_tr = (same_value(u["ret"], d["ret"]) if ("ret" in u and "ret" in d) else
                    ("raised" in u and "raised" in d and u["raised"] == d["raised"] and u["from_body"] == d["from_body"]))
-        cmp("transparent", real_tr, mo["transparent"])
-        cmp("decorated", enc_run(obs["dec"]), strip_model_run(mo["decorated"]))
+        mdec = mo["decorated"] if st is None else st["run"]
+        cmp("transparent", real_tr, mo["transparent"] if st is None else st["transparent"])
+        cmp("decorated", enc_run(obs["dec"]), strip_model_run(mdec))
         rec = obs["dec"]["rec"]
-        ib = mo["innerBound"]
-        reached = bool(mo["decorated"]["msgs"])
+        ib = mo["innerBound"] if st is None else st["innerBound"]
+        reached = len(mdec["msgs"]) == (2 if st is None else 4)
         if reached and ib is not None and "ok" in ib:
             cmp("decorated-body-locals", {k: enc(v) for k, v in rec[0].items()} if rec else None, ib["ok"])
         else:
             cmp("decorated-body-locals", len(rec), 0)
-        if "raw" in obs:
+        if "raw" in obs and st is None:
             cmp("logging_wrapper", enc_run(obs["raw"]), strip_model_run(mo["wrapper"]))
     if mo["wf"] and mo["posOnlyRespected"] and not mo["bindingAgrees"]:
         bad.append(("binding-characterisation", "bindingAgrees=%s" % mo["bindingAgrees"], "posOnlyRespected=%s" % mo["posOnlyRespected"]))
@@ -653,10 +701,14 @@ def gen_cases(ctx):
         for j in range(4):
             valid = j < 3 or rng.random() < 0.3
             pos, kw, tag = gen_call(rng, params, form, valid)
-            cases.append(dict(form=form, sig=params, opts=gen_opts(rng, params, form), pos=pos, kw=kw,
+            outer = None
+            if j == 2 and rng.random() < 0.6:   # stacked: log_call(**outer)(log_call(**opts)(f))
+                outer = gen_opts(rng, params, form)
+                outer["action_type"] = "outer:act"
+            cases.append(dict(form=form, sig=params, opts=gen_opts(rng, params, form), outer_opts=outer, pos=pos, kw=kw,
                               body=dict(**{"raise": rng.random() < 0.2}, ret=gen_val(rng)), call=tag, hot=hot))
     # the hand-found divergences of DESIGN.md section 4 are always part of the run
-    base = dict(form="function", opts=dict(action_type=None, include_args=None, include_result=True), kw=[],
+    base = dict(form="function", opts=dict(action_type=None, include_args=None, include_result=True), outer_opts=None, kw=[],
                 body={"raise": False, "ret": 7}, call="valid", hot=None)
     cases += [
         dict(base, sig=[dict(name="action_type", kind="posOrKw"), dict(name="x", kind="posOrKw", default=1)], pos=[5], hot="action_type"),
@@ -672,6 +724,12 @@ def gen_cases(ctx):
         dict(base, sig=[dict(name="_serializers", kind="posOrKw", default=None)], pos=[], hot="_serializers"),
         dict(base, form="method", sig=[dict(name="self", kind="posOrKw"), dict(name="x", kind="posOrKw")], pos=[4],
              opts=dict(action_type=None, include_args=["self", "x"], include_result=True)),
+        # stacked decoration: the outer log_call binds against the function the inner one returned
+        dict(base, sig=[dict(name="x", kind="posOrKw"), dict(name="y", kind="posOrKw", default=10), dict(name="rest", kind="varPos"),
+                        dict(name="key", kind="kwOnly", default=None), dict(name="extra", kind="varKw")],
+             pos=[1, 2, 3], kw=[["key", "v1"], ["more", 4]], outer_opts=dict(action_type="outer", include_args=None, include_result=True)),
+        dict(base, form="method", sig=[dict(name="self", kind="posOrKw"), dict(name="x", kind="posOrKw"), dict(name="y", kind="posOrKw", default=1)],
+             pos=[4], outer_opts=dict(action_type="outer", include_args=["x"], include_result=False)),
     ]
     return cases
 
@@ -693,7 +751,7 @@ def run(ctx):
     msgs, dest = setup_dest()
     try:
         for case, mo in zip(cases, model):
-            core = {k: case[k] for k in ("form", "sig", "opts", "pos", "kw", "body")}
+            core = {k: case.get(k) for k in ("form", "sig", "opts", "outer_opts", "pos", "kw", "body")}
             try:
                 obs = observe(core, msgs)
             except Exception as e:  # noqa  (a generated def Python itself rejects would be a generator bug)
@@ -702,7 +760,7 @@ def run(ctx):
             kinds = {p["kind"] for p in case["sig"]}
             ctx.case(core, nontrivial=len(kinds) >= 2,
                      tags=["form:" + case["form"], "call:" + case["call"], "nparams:%d" % len(case["sig"]),
-                           "hot:%s" % case["hot"], "include_args:%s" % (case["opts"]["include_args"] is not None),
+                           "hot:%s" % case["hot"], "stacked:%s" % bool(case.get("outer_opts")), "include_args:%s" % (case["opts"]["include_args"] is not None),
                            "include_result:%s" % case["opts"]["include_result"], "body-raises:%s" % case["body"]["raise"]]
                      + ["kind:" + k for k in sorted(kinds)])
             if diff(ctx, core, obs, mo):
